@@ -617,7 +617,9 @@ func c10(c *Ctx) {
 		}
 	}
 	if f := c.mustFn(r, tbT+"Close"); f != nil {
-		q := &pathQ{fn: f, fromEntry: true, to: storeTo("TBtree.closed"), barrier: whenCond(false, func(a string) bool { return strings.HasPrefix(a, "(const:0 < len(") && strings.Contains(a, "snapshots") })}
+		q := &pathQ{fn: f, fromEntry: true, to: storeTo("TBtree.closed"), barrier: whenCond(false, func(a string) bool {
+			return strings.HasPrefix(a, "(const:0 < len(") && strings.Contains(a, "snapshots")
+		})}
 		c.check(q.bypass() == nil, r, fnName(f)+":refuses-with-open-snapshots", c.pos(f.Pos()), "Close is refused while snapshots are open", "TBtree.Close proceeds with open snapshots")
 	}
 	if f := c.mustFn(r, "embedded/tbtree.(*Snapshot).Close"); f != nil {
